@@ -28,3 +28,9 @@ Lemma tie_scaler_always_broadcasts :
   renamer_transform_error = EValueError /\ dec_rank_error = EValueError /\
   eof_inverse_selects_by_label = true.
 Proof. repeat split; reflexivity. Qed.
+
+Lemma tie_orders_summary :
+  single_fit_order = declared_single_fit_order /\ single_transform_order = declared_single_transform_order /\
+  map fst preprocessor_transformer_order = declared_transformer_order /\
+  stacker_transform_order = declared_stacker_transform_order.
+Proof. repeat split; reflexivity. Qed.
